@@ -1643,7 +1643,9 @@ func TestC12_R_VeryLargeFileWholeValueFaults(t *testing.T) {
 		n       int
 		chunker string
 		w       int
-	}{{40<<20 + 3, "", 174}, {136<<20 + 1, "", 174}, {70 << 10, "size-4096", 4}, {200<<10 + 7, "size-16384", 3}, {1 << 20, "size-65536", 174}, {65536, "size-1024", 174}, {3<<20 + 1, "", 174}, {300, "size-16", 3}} {
+	}{{40<<20 + 3, "", 174}, {136<<20 + 1, "", 174}, {70 << 10, "size-4096", 4}, {200<<10 + 7, "size-16384", 3}, {1 << 20, "size-65536", 174}, {65536, "size-1024", 174}, {3<<20 + 1, "", 174}, {300, "size-16", 3},
+		// a quarter of a GiB and more (a recorded size no pre-sizing heuristic should trust blindly)
+		{257<<20 + 11, "size-1048576", 174}} {
 		n := c.n
 		fc := bigFile(t, n, c.chunker, c.w)
 		all := fc.Tree.All()
@@ -1658,6 +1660,9 @@ func TestC12_R_VeryLargeFileWholeValueFaults(t *testing.T) {
 			for k, bare := range []error{io.EOF, io.ErrUnexpectedEOF, nil} {
 				if i == 1 && (j+k)%2 == 1 {
 					continue // (the larger file: half of the combinations)
+				}
+				if n > 200<<20 && (j != 2 || bare == nil) {
+					continue // (the largest one: the last leaf, bare values only)
 				}
 				fc.St.Missing = map[cid.Cid]bool{nd.Cid: true}
 				fc.St.MissingIO = true
@@ -2085,3 +2090,103 @@ func veryLongNames(t *testing.T) {
 		}
 	}
 }
+
+// harvestChunks cuts pseudo-random data with a content-defined chunker and returns, per wanted length, chunks of exactly
+// that length. A content-defined chunker starts afresh after every cut, so harvested chunks strung together are cut at
+// the same places again (the callers check that).
+func harvestChunks(t *testing.T, chunker string, lengths ...int) map[int][][]byte {
+	out := map[int][][]byte{}
+	want := map[int]bool{}
+	for _, l := range lengths {
+		want[l] = true
+	}
+	for salt := 0; salt < 8; salt++ {
+		sp, err := chunk.FromString(bytes.NewReader(lcgBytes(4<<20, byte(salt+1), salt)), chunker)
+		if err != nil {
+			t.Fatal(err)
+		}
+		for {
+			c, err := sp.NextBytes()
+			if err != nil {
+				break
+			}
+			if want[len(c)] && len(out[len(c)]) < 8 {
+				out[len(c)] = append(out[len(c)], append([]byte{}, c...))
+			}
+		}
+		done := true
+		for _, l := range lengths {
+			done = done && len(out[l]) >= 4
+		}
+		if done {
+			return out
+		}
+	}
+	t.Fatalf("harness: %s did not yield chunks of all the lengths %v", chunker, lengths)
+	return nil
+}
+
+// C07 / C10 / C11: content-defined chunks whose lengths sit on both sides of a varint boundary (124, 127, 128 bytes), laid
+// out so that neighbouring subtrees differ in content length but not in stored size; and a node whose chunk lengths are
+// irregular but add up like a regular one ([27, 21, 33, 27]), built right after the regular file it resembles. Whatever
+// was built before in the process: the reference importer's link and size.
+func contentDefinedCoincidences(t *testing.T, prop string) {
+	h := harvestChunks(t, "rabin-64-128-256", 124, 127, 128)
+	var data []byte
+	for i, l := range []int{127, 127, 128, 124, 128, 124, 127, 127, 124, 128, 127, 127} {
+		data = append(data, h[l][i%len(h[l])]...)
+	}
+	for _, w := range []int{2, 3, 4, 174} {
+		got, gsz, err := buildFile(NewStore(), data, "rabin-64-128-256", w)
+		if err != nil {
+			t.Fatal(err)
+		}
+		want, wsz, err := refImportFile(NewStore(), data, refFileOpts{Chunker: "rabin-64-128-256", Width: w, RawLeaves: true, CidV1: true})
+		if err != nil {
+			t.Fatal(err)
+		}
+		if got != want || gsz != wsz {
+			t.Fatalf("%s: %d bytes cut by rabin-64-128-256 into chunks of 127,127,128,124,128,124,127,127,124,128,127,127 bytes at width %d: builder %s / %d, reference importer %s / %d", prop, len(data), w, got, gsz, want, wsz)
+		}
+		st := NewStore()
+		root, size, err := buildFile(st, data, "rabin-64-128-256", w)
+		if err != nil {
+			t.Fatal(err)
+		}
+		if cum, err := st.CumulativeSize(root, nil); err != nil || cum != size {
+			t.Fatalf("%s: width %d: returned size %d, true cumulative size %d (%v)", prop, w, size, cum, err)
+		}
+		if _, err := verifySizes(st, root, nil); err != nil {
+			t.Fatalf("%s: width %d: %v", prop, w, err)
+		}
+	}
+	h2 := harvestChunks(t, "rabin-16-32-64", 21, 27, 33)
+	for round := 0; round < 3; round++ {
+		irregular := append(append(append(append([]byte{}, h2[27][round]...), h2[21][round]...), h2[33][round]...), h2[27][round+1]...)
+		regular := lcgBytes(108, byte(round+9), 0)
+		for _, first := range []string{"regular", "irregular"} {
+			order := [][2]any{{regular, "size-27"}, {irregular, "rabin-16-32-64"}}
+			if first == "irregular" {
+				order[0], order[1] = order[1], order[0]
+			}
+			for _, o := range order {
+				d, ck := o[0].([]byte), o[1].(string)
+				got, gsz, err := buildFile(NewStore(), d, ck, 174)
+				if err != nil {
+					t.Fatal(err)
+				}
+				want, wsz, err := refImportFile(NewStore(), d, refFileOpts{Chunker: ck, Width: 174, RawLeaves: true, CidV1: true})
+				if err != nil {
+					t.Fatal(err)
+				}
+				if got != want || gsz != wsz {
+					t.Fatalf("%s: a 108-byte file (chunker %s; built %s-first next to its look-alike): builder %s / %d, reference importer (and a fresh process) %s / %d", prop, ck, first, got, gsz, want, wsz)
+				}
+			}
+		}
+	}
+}
+
+func TestC07_R_ContentDefinedCoincidences(t *testing.T) { contentDefinedCoincidences(t, "C07") }
+func TestC10_R_ContentDefinedCoincidences(t *testing.T) { contentDefinedCoincidences(t, "C10") }
+func TestC11_R_ContentDefinedCoincidences(t *testing.T) { contentDefinedCoincidences(t, "C11") }
